@@ -267,6 +267,8 @@ def cases(draw, tier="quick"):
         case["top_p"] = draw(st.sampled_from(TOP_P))
     if envn in FIXED_LEN and key != "ptrnet" and draw(st.integers(0, 2)) == 0:
         case["stepmask"] = draw(st.lists(st.booleans(), min_size=4, max_size=24))
+    if key != "ptrnet" and mode.startswith("multistart") and draw(st.integers(0, 2)) == 0:
+        case["warm_split"] = True
     if key != "ptrnet" and draw(st.integers(0, 2)) == 0:
         # the evaluate call of the round trip also carries a decode_type (a caller forwarding one set of decoding kwargs
         # to rollout and re-evaluation): given actions are evaluated whatever decode type is named
@@ -632,6 +634,31 @@ def _run(case, ctx, env, inst, td0, policy, cfg, kw, tkw, slice_, tol, Tm, C, st
     fkw = dict(top_k=top_k, top_p=top_p)
     ninf = -math.inf
 
+    if case.get("warm_split") and multistart and k >= 2 and B * k <= 64:
+        # history: the same policy object first decodes ANOTHER batch with the same number of rows in another layout
+        # (k instances x B starts, or B*k instances decoded plainly) - nothing of that call may leak into the next one
+        with torch.no_grad():
+            swapped = 2 <= B < k and ssn is None
+            if swapped:
+                # (forced starts of the warm-up must be feasible, as for the main call: start-rule findings are C12's)
+                tdw = td0[torch.arange(k) % B].clone()
+                state = torch.get_rng_state()
+                try:
+                    a0 = env.select_start_nodes(tdw.clone(), num_starts=B)
+                    m0 = expand_starts(tdw, B)["action_mask"]
+                    swapped = (a0.shape[0] == m0.shape[0] and int(a0.max()) < m0.shape[1] and int(a0.min()) >= 0
+                               and bool(m0.gather(1, a0.view(-1, 1)).all()))
+                except Exception:
+                    swapped = False
+                torch.set_rng_state(state)
+            if swapped:
+                ctx.guard(policy, tdw, env_arg, what=f"policy_other_split_first|{slice_}", decode_type="multistart_greedy",
+                          num_starts=B, **tkw)
+                ctx.event("history:other_split_first|swapped")
+            else:
+                tdw = td0[torch.arange(B * k) % B].clone()
+                ctx.guard(policy, tdw, env_arg, what=f"policy_other_split_first|{slice_}", decode_type="greedy", **tkw)
+                ctx.event("history:other_split_first|plain_rows")
     torch.manual_seed(case["tseed"])
     with torch.no_grad():
         out = ctx.guard(policy, td0.clone(), env_arg, what=f"policy|{slice_}", **kw)
@@ -809,6 +836,12 @@ def _run(case, ctx, env, inst, td0, policy, cfg, kw, tkw, slice_, tol, Tm, C, st
             ctx.check(not bool((lp_e == ninf)[:, 1:].any()), f"kept_set_across_layouts|{slice_}",
                       "a returned action robustly inside the kept set of the generating layout lies outside the reference "
                       "kept set on the start-major expanded batch", {"actions": A, "reference_eval": lp_e})
+    if do_rt and bool((ref_eval.logp[:, :Te] < -900.0).any()):
+        # get_log_likelihood asserts log-probs > -1000 ("should not be -inf"): a forced start (or any given action) that the
+        # policy itself would take with probability below e^-900 - unclipped logits on unscaled coordinates - makes the
+        # evaluate call raise by design; the round trip is only defined above that floor
+        do_rt = False
+        ctx.event("roundtrip_skipped(given action below the library's log-prob floor)")
     if do_rt:
         # the evaluate loop stops once every row is done: with select_best the kept starts may need fewer steps (Te)
         # than the slowest discarded start; the trailing steps of the generating call are judged by Oracle 1 only
